@@ -156,6 +156,58 @@ func init() {
 				found, _ := guardControlsReturn(cmp, a.m, func(*ssa.Return) bool { return true })
 				c.Check(found, "C01/bit-width", "CompareTimestamp atom "+a.name, "comparison present", P.pos(cmp.Pos()), "")
 			}
+			// …and the table: evaluated under each of the nine orderings of (physical, logical) the result is the sign
+			// of the physical difference, or of the logical one when the physical parts are equal (ordeval.go)
+			okTab, tabDetail := len(cmp.Params) == 2, ""
+			for _, po := range []int{-1, 0, 1} {
+				for _, lo := range []int{-1, 0, 1} {
+					want := po
+					if po == 0 {
+						want = lo
+					}
+					pOrd, lOrd := po, lo
+					got, okE := ordEval(cmp, nil, ordAssume{cmp: func(x, y ssa.Value) (int, bool) {
+						side := func(v ssa.Value) (string, int) {
+							cl, _ := callOf(v)
+							if cl == nil || len(cl.Call.Args) != 1 || len(cmp.Params) != 2 {
+								return "", -1
+							}
+							k := ""
+							switch {
+							case getP.Match(cl.Common()):
+								k = "p"
+							case getL.Match(cl.Common()):
+								k = "l"
+							}
+							switch {
+							case sameVal(cl.Call.Args[0], cmp.Params[0]):
+								return k, 0
+							case sameVal(cl.Call.Args[0], cmp.Params[1]):
+								return k, 1
+							}
+							return k, -1
+						}
+						kx, sx := side(x)
+						ky, sy := side(y)
+						if kx == "" || kx != ky || sx < 0 || sy < 0 || sx == sy {
+							return 0, false
+						}
+						o := pOrd
+						if kx == "l" {
+							o = lOrd
+						}
+						if sx == 1 {
+							o = -o
+						}
+						return o, true
+					}}, 2)
+					if !okE || got.kind != 'i' || int(got.i) != want {
+						okTab = false
+						tabDetail = fmt.Sprintf("physical ordered %d, logical ordered %d: result %d (evaluated: %v), want %d", po, lo, got.i, okE, want)
+					}
+				}
+			}
+			c.Check(okTab, "C01/bit-width", "CompareTimestamp order", "physical part first, logical part second: all nine orderings give the documented sign", P.pos(cmp.Pos()), tabDetail)
 		})
 
 		c.Group("C01/save-before-advance", "(shared with C02) order across restarts and hand-overs rests on the stored window: memory never advances past a window that was not stored first", func() { ruleSaveBeforeAdvance(c) })
